@@ -1,0 +1,66 @@
+//! Verification hooks (cargo feature `verif-hooks`, off by default).
+//!
+//! This module only re-exports or thinly wraps crate-private items so that out-of-tree
+//! verification harnesses can name them. It adds no behaviour and changes no existing code.
+#![allow(missing_docs)]
+
+use std::sync::Arc;
+
+use crate::common::RadixFactor;
+use crate::{Fft, FftNum};
+
+pub use crate::array_utils::{
+    bitreversed_transpose, compute_logarithm, reverse_bits, transpose_small, validate_and_iter,
+    validate_and_iter_unroll2x, validate_and_zip, validate_and_zip_mut,
+    validate_and_zip_mut_unroll2x, validate_and_zip_unroll2x,
+};
+pub use crate::common::{fft_error_immut, fft_error_inplace, fft_error_outofplace};
+pub use crate::fft_helper::{
+    fft_helper_immut, fft_helper_immut_unroll2x, fft_helper_inplace, fft_helper_inplace_unroll2x,
+    fft_helper_outofplace, fft_helper_outofplace_unroll2x,
+};
+pub use crate::math_utils::{
+    distinct_prime_factors, modular_exponent, primitive_root, PartialFactors, PrimeFactor,
+    PrimeFactors,
+};
+pub use crate::twiddles::{compute_twiddle, fill_bluesteins_twiddles, rotate_90};
+
+fn radix_factor(radix: usize) -> RadixFactor {
+    match radix {
+        2 => RadixFactor::Factor2,
+        3 => RadixFactor::Factor3,
+        4 => RadixFactor::Factor4,
+        5 => RadixFactor::Factor5,
+        6 => RadixFactor::Factor6,
+        7 => RadixFactor::Factor7,
+        _ => panic!("verif_hooks: not a RadixN factor"),
+    }
+}
+
+/// `RadixN::new` (crate-private type) with the factor list given as plain radixes.
+pub fn radixn_new<T: FftNum>(radixes: &[usize], base_fft: Arc<dyn Fft<T>>) -> Arc<dyn Fft<T>> {
+    let factors: Vec<RadixFactor> = radixes.iter().map(|r| radix_factor(*r)).collect();
+    Arc::new(crate::algorithm::RadixN::new(&factors, base_fft))
+}
+
+/// `array_utils::factor_transpose::<T, D>` with the factor list given as (radix, count) pairs.
+pub fn factor_transpose_d<T: Copy, const D: usize>(
+    height: usize,
+    input: &[T],
+    output: &mut [T],
+    factors: &[(usize, u8)],
+) {
+    let factors: Vec<crate::array_utils::TransposeFactor> = factors
+        .iter()
+        .map(|(r, c)| crate::array_utils::TransposeFactor {
+            factor: radix_factor(*r),
+            count: *c,
+        })
+        .collect();
+    crate::array_utils::factor_transpose::<T, D>(height, input, output, &factors)
+}
+
+/// Recipe designed by a fresh scalar planner for `len`: (recipe length, debug rendering). Nothing is built.
+pub fn scalar_recipe_len_and_shape(len: usize) -> (usize, String) {
+    crate::plan::verif_scalar_recipe(len)
+}
